@@ -135,3 +135,40 @@ Theorem C16_static_table_vs_rfc :
   /\ nth_error rfc_static_table 14 = Some (bs "accept-charset", []).
 Proof. split; [exact static_tables_agree|exact static_tables_differ_at_15]. Qed.
 Print Assumptions C16_static_table_vs_rfc.
+
+(* ---------------------------------------------------------------------------------------------------------
+   HTTP/2 inside the packet-level HTTP analyzer.  Model/HttpH2.v gives the two head parsers of
+   HttpProcessors for HTTP/1.x and HTTP/2 (HTTP/1 adapter first, then the HTTP/2 adapter behind its can_parse
+   gate = the analyse_request / analyse_response of the theorems above); the analyzer theorems of C07 / C01 / C10
+   / C15 / C20 are parametric in the parsers, these are their instances for that pair (Proofs/HttpH2Instances.v);
+   tied to the real per-packet API by correspondence kind G (Extract/EC16.v). *)
+From HN Require Import Base.Cache Base.Keyed Model.HttpFlow Model.HttpAnalyzer Model.HttpH2 Proofs.HttpH2Instances.
+
+Theorem C16_analyzer_isolation :
+  forall (tr : list bytes) (st : http_state) (K : fkey),
+    http12_within_capacityb st tr = true ->
+    http12_within_capacityb st (Keyed.fk bytes fkey http_key fkey_eqb K tr) = true ->
+    Keyed.proj fkey (@http_out bytes bytes) fkey_eqb K (http_results parse_req_12 parse_resp_12 st tr)
+    = snd (http12_run st (Keyed.fk bytes fkey http_key fkey_eqb K tr)).
+Proof. exact http12_isolation. Qed.
+Check C16_analyzer_isolation :
+  forall (tr : list bytes) (st : http_state) (K : fkey),
+    http12_within_capacityb st tr = true ->
+    http12_within_capacityb st (Keyed.fk bytes fkey http_key fkey_eqb K tr) = true ->
+    Keyed.proj fkey (@http_out bytes bytes) fkey_eqb K (http_results parse_req_12 parse_resp_12 st tr)
+    = snd (http12_run st (Keyed.fk bytes fkey http_key fkey_eqb K tr)).
+Print Assumptions C16_analyzer_isolation.
+
+(* one HTTP/2 connection start split over two TCP segments, interleaved with an HTTP/1.1 exchange: the
+   hypotheses hold, the request is reported at the second segment, and alone = interleaved *)
+Example C16_analyzer_example :
+  http12_within_capacityb (cache_new 8) ex12_trace = true /\
+  Keyed.fk bytes fkey http_key fkey_eqb ex12_ka ex12_trace = ex12_a_alone /\
+  http12_within_capacityb (cache_new 8) ex12_a_alone = true /\
+  map okind (snd (http12_run (cache_new 8) ex12_trace)) = [0; 0; 0; 0; 0; 0; 0; 1; 1; 2; 0; 0] /\
+  Keyed.proj fkey (@http_out bytes bytes) fkey_eqb ex12_ka (http_results parse_req_12 parse_resp_12 (cache_new 8) ex12_trace)
+  = snd (http12_run (cache_new 8) ex12_a_alone).
+Proof.
+  destruct http12_example as (W & Efk & Wa & Hk & _).
+  exact (conj W (conj Efk (conj Wa (conj Hk http12_example_isolated)))).
+Qed.
